@@ -2,6 +2,7 @@ package main
 
 import (
 	"bufio"
+	"bytes"
 	"crypto/sha256"
 	"encoding/hex"
 	"encoding/json"
@@ -445,7 +446,58 @@ func hx(b []byte) string {
 	if len(b) == 0 {
 		return "-"
 	}
+	retain(b)
 	return hex.EncodeToString(b)
+}
+
+// ---- retained results: every byte slice that was printed into an answer (results of the library,
+// and arguments handed to it) is remembered together with a snapshot for the next few hundred
+// operations. If its contents change later, the library has handed out (or kept) memory that it
+// went on writing to — a pooled buffer, a cache keyed on a caller's slice, an in-place reuse —
+// which makes results history-dependent. The check runs after every operation.
+
+type retainedSlice struct {
+	b    []byte
+	snap []byte
+	op   string
+}
+
+var (
+	retainRing []retainedSlice
+	retainPos  int
+	retainOp   string
+	retainOff  bool
+)
+
+const retainSlots = 384
+
+func retain(b []byte) {
+	if retainOff || len(b) > 4096 {
+		return
+	}
+	e := retainedSlice{b: b, snap: append([]byte{}, b...), op: retainOp}
+	if len(retainRing) < retainSlots {
+		retainRing = append(retainRing, e)
+		return
+	}
+	retainRing[retainPos] = e
+	retainPos = (retainPos + 1) % retainSlots
+}
+
+// checkRetained reports (once) every remembered slice whose contents changed.
+func checkRetained() []string {
+	var out []string
+	for i := range retainRing {
+		e := &retainRing[i]
+		if e.b == nil {
+			continue
+		}
+		if !bytes.Equal(e.b, e.snap) {
+			out = append(out, fmt.Sprintf("bytes returned by (or passed to) an earlier operation [%s] changed during a later one: were %s, now %s", truncate(e.op, 160), truncate(hex.EncodeToString(e.snap), 80), truncate(hex.EncodeToString(e.b), 80)))
+			e.b = nil
+		}
+	}
+	return out
 }
 
 func unhx(s string) []byte {
